@@ -222,7 +222,7 @@ OPTSETS = [[], ['-empty'], ['-memory-encoding', 'l_vars'], ['-order-bounds'], ['
            ['-no-output-before-pop'], ['-order-conflicts'], ['-pop-uninterpreted'], ['-empty', '-order-bounds', '-memory-encoding', 'direct'],
            ['-term-encoding', 'uninterpreted_uf'], ['-term-encoding', 'uninterpreted_int']]
 
-SMALL_BLOCKS = ["SWAP2 SWAP1 SWAP3 SSTORE SSTORE", "SWAP2 SWAP1 SWAP3 MSTORE MSTORE", "DUP2 ADD", "DUP2 MUL SWAP1 POP", "SLOAD SWAP2 SSTORE", "MLOAD SWAP2 MSTORE", "SUB", "SWAP1 SUB", "DUP1 MLOAD SWAP1 POP",
+SMALL_BLOCKS = ["PUSH 0 ADD", "PUSH 1 MUL", "DUP1 POP", "SWAP2 SWAP1 SWAP3 SSTORE SSTORE", "SWAP2 SWAP1 SWAP3 MSTORE MSTORE", "DUP2 ADD", "DUP2 MUL SWAP1 POP", "SLOAD SWAP2 SSTORE", "MLOAD SWAP2 MSTORE", "SUB", "SWAP1 SUB", "DUP1 MLOAD SWAP1 POP",
                 "PUSH 1 ADD", "POP POP", "DUP2 DUP2 SSTORE SLOAD", "DUP2 DUP2 MSTORE MLOAD ADD", "SWAP1 DUP2 SSTORE PUSH 7 SWAP1 SSTORE",
                 "PUSH 0 SLOAD PUSH 1 ADD PUSH 0 SSTORE", "DUP1 DUP1 ADD ADD", "CALLER DUP1 AND", "SWAP2 SWAP1 SUB MUL", "PUSH 0 MLOAD PUSH 20 MSTORE",
                 "DUP1 SLOAD DUP2 SSTORE POP", "SWAP1 POP DUP1 ISZERO", "SWAP1 POP PUSH 0 MSTORE8", "MSTORE8 POP", "DUP2 SWAP1 MSTORE8 POP",
